@@ -9,6 +9,9 @@
 (* the next recorded call and must agree with it exactly (argument and result).                 *)
 (* Verdicts: reject:nav (l = index of the call), reject:nav-missing, reject:nav-extra,           *)
 (* reject:stream, reject:projection, reject:lint-model, reject:concat, then as Trace_Walker.    *)
+(* sameTree = both builders built the same tree.  When they did not, the streams are still     *)
+(* compared: a difference that vanishes under UnClark is the deviation etree-clark-raw-name,     *)
+(* any other difference is a builder divergence (C04): accept:builders-differ.                   *)
 EXTENDS EtreeWalker, TLC, Json, IOUtils
 Traces == JsonDeserialize(IOEnv.TRACE_FILE)
 VARIABLES tid, l, st, verdict, c, f
@@ -24,8 +27,17 @@ Final(tr) ==
        ELSE IF tr.lint # LintOK(tr.stream, KnownDefects) THEN [v |-> "reject:lint-model", l |-> 0, c |-> "-", f |-> {}]
        ELSE IF tr.concat # Concat(tr.stream) THEN [v |-> "reject:concat", l |-> 0, c |-> "-", f |-> {}]
        ELSE IF ~ParsedShape(nd) THEN [v |-> "accept:nonparsed", l |-> l, c |-> "-", f |-> {}]
-       ELSE LET cl == PropertyClause(tr.stream, nd, tr.lint, tr.other, tr.hasOther) IN
-            IF cl = "ok" THEN [v |-> "accept", l |-> l, c |-> cl, f |-> {}]
+       ELSE LET cl == PropertyClause(tr.stream, nd, tr.lint, tr.other, tr.hasOther /\ tr.sameTree)
+                \* the builders built different trees: is the only difference a raw name read back as Clark notation?
+                diff == tr.hasOther /\ ~tr.sameTree /\ ~SameModuloText(tr.stream, tr.other)
+                raw  == diff /\ SameModuloText(UnClark(tr.stream), tr.other)
+            IN
+            IF cl = "ok"
+            THEN IF raw THEN (IF "etree-clark-raw-name" \in KnownDefects
+                             THEN [v |-> "finding", l |-> l, c |-> "crosswalker", f |-> {"etree-clark-raw-name"}]
+                             ELSE [v |-> "reject:property", l |-> l, c |-> "crosswalker", f |-> {}])
+                 ELSE IF diff THEN [v |-> "accept:builders-differ", l |-> l, c |-> cl, f |-> {}]
+                 ELSE [v |-> "accept", l |-> l, c |-> cl, f |-> {}]
             ELSE LET fired == EtFiredOn(tr.E, tr.start, KnownDefects) IN
                  IF fired # {} /\ PropertyClause(good, nd, LintOK(good, {}), <<>>, FALSE) = "ok"
                  THEN [v |-> "finding", l |-> l, c |-> cl, f |-> fired]
